@@ -1,34 +1,24 @@
 /-
 Tier 2 (`Inv2`) preservation, slice B, part 3: the step `.notify1` (one event of `notify`).
-Needs the auxiliary tier `Inv2X` (see `CtrlInv2X.lean`).
+Needs the auxiliary tier `Inv2X` (see `CtrlInv2X.lean`) and, for the completion of a task (the notices of ALL its
+outputs have been processed), `InvP.pub_once` (see `CtrlInvP.lean`).
 -/
 import EkwVerif.Lemmas.CtrlInv2B2
+import EkwVerif.Lemmas.CtrlInvP
 
 set_option linter.unusedVariables false
 set_option linter.unusedSimpArgs false
 
 namespace EkwVerif.Ctrl
 
-theorem i2b_isLast_inj (j : Job) (d d' : Ds) (h : j.isLast d = true) (h' : j.isLast d' = true)
-    (ht : d'.task = d.task) : d' = d := by
-  cases d with | mk t k => cases d' with | mk t' k' =>
-  simp only [Job.isLast, beq_iff_eq] at h h'
-  simp only at ht
-  subst ht
-  simp only [Ds.mk.injEq, true_and]
-  omega
-
-/-- `notify` of a worker's `DatasetPublished` does not raise when, in case it is the last output,
-the completing task is registered in the purging tracker of all its inputs and is in `ongoing` -/
+/-- `notify` of a worker's `DatasetPublished` does not raise when the task is registered in the purging tracker of all
+its inputs and is in `ongoing` (needed in case this notice completes the task) -/
 theorem i2b_notifyEvent_pubW_ok (j : Job) (c : Ctl) (w : Worker) (ds : Ds) (hnd : (j.inputs ds.task).Nodup)
-    (hl : j.isLast ds = true →
-      (∀ src, src ∈ j.inputs ds.task → c.ptracked src = true ∧ ds.task ∈ c.ptrack src) ∧ (w, ds.task) ∈ c.ongoing)
+    (hin : ∀ src, src ∈ j.inputs ds.task → c.ptracked src = true ∧ ds.task ∈ c.ptrack src) (hon : (w, ds.task) ∈ c.ongoing)
     (e : Err) : notifyEvent j c (.pubW w ds) ≠ .error e := by
   simp only [notifyEvent]
   split
-  · rename_i hlast
-    obtain ⟨hin, hon⟩ := hl hlast
-    split
+  · split
     · rename_i e2 hci
       exact absurd hci (i2b_completeInputs_ok j ds.task _ _ hnd (by simpa using hin) e2)
     · rename_i c4 hci
@@ -41,7 +31,7 @@ theorem i2b_notifyEvent_pubW_ok (j : Job) (c : Ctl) (w : Worker) (ds : Ds) (hnd 
   · simp
 
 theorem i2b_step_notify1 (f : Sem) (j : Job) (cl : Cluster) (s s' : Sys) (wf : WF j cl)
-    (h1 : Inv1 cl s) (h2 : Inv2 j cl s) (h3 : Inv3 f j cl s) (h4 : Inv4 j cl s) (hx : Inv2X j s)
+    (h1 : Inv1 cl s) (h2 : Inv2 j cl s) (h3 : Inv3 f j cl s) (h4 : Inv4 j cl s) (hx : Inv2X j s) (hP : InvP j s)
     (hs : step f j cl s .notify1 = some s') : Inv2 j cl s' := by
   simp only [step] at hs
   split at hs; · cases hs
@@ -57,12 +47,12 @@ theorem i2b_step_notify1 (f : Sem) (j : Job) (cl : Cluster) (s s' : Sys) (wf : W
     have hsub : ∀ e, (rest ++ s.env.pending).count e ≤ s.allEv.count e := by
       intro e; simp only [Sys.allEv, hib, List.cons_append]; exact List.count_le_count_cons
     have hhead : ev ∈ s.allEv := by simp [Sys.allEv, hib]
-    -- facts about a last-output event at the head of the inbox
-    have hlast : ∀ w ds, ev = Event.pubW w ds → j.isLast ds = true →
+    -- facts about an output notice at the head of the inbox: its task is still in flight
+    have hflight : ∀ w ds, ev = Event.pubW w ds →
         (w, ds.task) ∈ s.ctl.ongoing ∧ s.ctl.doneC ds.task = false ∧ s.ctl.dispatched ds.task = 1 := by
-      intro w ds he hl
+      intro w ds he
       subst he
-      have hf := h2.ev_last_flight w ds hhead hl
+      have hf := h2.ev_flight w ds hhead
       refine ⟨?_, h2.flight_not_done _ _ hf, h1.flight_disp _ _ hf⟩
       simpa [Sys.inFlight, Sys.todoPairs, htodo] using hf
     split at hs
@@ -73,10 +63,8 @@ theorem i2b_step_notify1 (f : Sem) (j : Job) (cl : Cluster) (s s' : Sys) (wf : W
       | payload ds v => simp [notifyEvent] at he
       | pubT a ds => simp [notifyEvent] at he
       | pubW w ds =>
-        refine i2b_notifyEvent_pubW_ok j s.ctl w ds (wf.inputsNodup _) ?_ _ he
-        intro hl
-        obtain ⟨k1, k2, _⟩ := hlast w ds rfl hl
-        refine ⟨?_, k1⟩
+        obtain ⟨k1, k2, _⟩ := hflight w ds rfl
+        refine i2b_notifyEvent_pubW_ok j s.ctl w ds (wf.inputsNodup _) ?_ k1 _ he
         intro src hsrc
         exact h2.ptrack_sound src ds.task ((i2b_mem_consumers j src ds.task).mpr hsrc) k2
     · rename_i c2 hne
@@ -99,11 +87,19 @@ theorem i2b_step_notify1 (f : Sem) (j : Job) (cl : Cluster) (s s' : Sys) (wf : W
       | pubW w ds =>
         have hran := h2.ev_ran w ds hhead
         have hprod : s.env.produced ds = true := (h2.produced_iff ds).mpr hran
-        have st1 := i2b_inv2_announce j cl s h2 hx.tracked_valid ds w.host rest hsub hp hprod
+        have st0 := i2b_inv2_announce j cl s h2 hx.tracked_valid ds w.host rest hsub hp hprod
+        -- recording the notice touches none of the fields Tier 2 talks about
+        have st1 : Inv2 j cl { s with
+            ctl := markPublished (considerComputable (considerFetch j (markAvailable s.ctl w.host ds) ds w.host) ds) ds,
+            inbox := rest } :=
+          st0.i2b_congr rfl rfl rfl rfl rfl rfl rfl (fun _ h => h) (fun _ h => h) rfl rfl rfl rfl rfl rfl (fun _ => Nat.le_refl _)
+            (fun hx' _ => absurd hp hx') (fun _ _ hv => hv) (fun _ _ he => he)
+        obtain ⟨k1, k2, k3⟩ := hflight w ds rfl
         simp only [notifyEvent] at hne
         split at hne
-        · rename_i hl
-          obtain ⟨k1, k2, k3⟩ := hlast w ds rfl hl
+        · rename_i hall
+          have hall' := (allPublished_iff j _ ds.task).mp hall
+          simp only [markPublished, considerComputable_published, considerFetch_published, markAvailable_published] at hall'
           split at hne
           · cases hne
           · rename_i c4 hci
@@ -112,14 +108,21 @@ theorem i2b_step_notify1 (f : Sem) (j : Job) (cl : Cluster) (s s' : Sys) (wf : W
               subst hne
               refine i2b_inv2_complete j cl _ st1 ds.task w c4 _ _ htodo (by simpa using hfu) (by simpa using k1)
                 hran.1 (by simpa using k3) ?_ hci
-              intro w' ds' he' hl' heq
+              intro w' ds' he' heq
               have he'' : Event.pubW w' ds' ∈ rest ++ s.env.pending := he'
               have hm : Event.pubW w' ds' ∈ s.allEv := i2b_mem_of_count_le hsub _ he''
-              have hf := h2.ev_last_flight w' ds' hm hl'
+              have hf := h2.ev_flight w' ds' hm
               have hon' : (w', ds.task) ∈ s.ctl.ongoing := by
                 rw [← heq]; simpa [Sys.inFlight, Sys.todoPairs, htodo] using hf
               have hw : w' = w := i2b_snd_inj _ _ _ _ hfu hon' k1
-              have hd : ds' = ds := i2b_isLast_inj j ds ds' hl hl' heq
+              -- the notice of `ds'` is still on its way, so it is not recorded: it must be the notice being processed
+              have hd : ds' = ds := by
+                have hk := hall' ds'.out (by rw [← heq]; exact (h2.ev_ran w' ds' hm).2)
+                have hds' : (⟨ds.task, ds'.out⟩ : Ds) = ds' := by rw [← heq]
+                rw [hds'] at hk
+                by_cases hdd : ds' = ds
+                · exact hdd
+                · rw [upd_other _ _ _ _ hdd, hP.pub_once w' ds' hm] at hk; cases hk
               subst hw; subst hd
               have c1 := List.count_pos_iff.mpr he''
               have c2 := h2.ev_count w' ds'
